@@ -46,6 +46,9 @@ func c03MarshalReused(n tv.Node) (b []byte, panicked string) {
 		}
 	}()
 	v := tv.ToValue(n)
+	// what the encoder held before is noise (so that a single replayed tree sees a used encoder too)
+	c03Shared.Clear()
+	c03Shared.ByteString(0x420001, bytes.Repeat([]byte{0xFF}, 4096+len(n.String())%64))
 	c03Shared.Clear()
 	c03Shared.Any(&v)
 	return append([]byte{}, c03Shared.Bytes()...), ""
